@@ -4,7 +4,8 @@
 //! the `lightning::verif::onion` wrappers, and records what every step returned as NDJSON.
 //! Nothing is compared here: spec/OnionTrace.tla judges the recorded events.
 //!
-//! usage: onion --scripts FILE --out TRACE [--random N] [--seed S] [--reps K] | --probe
+//! usage: onion --scripts FILE --out TRACE [--random N] [--seed S] [--reps K] [--run-seed R] | --probe
+//! (--run-seed R replays: every run draws its values from R, the `rseed` logged in its reset record)
 //!
 //! A script (one JSON object per line, produced by TLC from spec/OnionMC.tla) fixes the *shape* of
 //! a run: number of onion hops `n`, number of blinded hops `b`, the byte-length classes of the
@@ -1099,6 +1100,7 @@ fn main() {
 	let mut seed = 1u64;
 	let mut reps = 1usize;
 	let mut probe = false;
+	let mut run_seed: Option<u64> = None;
 	let mut i = 1;
 	while i < args.len() {
 		match args[i].as_str() {
@@ -1120,6 +1122,10 @@ fn main() {
 			},
 			"--reps" => {
 				reps = args[i + 1].parse().unwrap();
+				i += 1;
+			},
+			"--run-seed" => {
+				run_seed = Some(args[i + 1].parse().unwrap());
 				i += 1;
 			},
 			"--probe" => probe = true,
@@ -1205,8 +1211,12 @@ fn main() {
 		let r = if idx < nscripts { reps } else { 1 };
 		for rep in 0..r {
 			run += 1;
-			let mut rng = StdRng::seed_from_u64(seed.wrapping_mul(1_000_003).wrapping_add((idx as u64) << 8).wrapping_add(rep as u64));
-			tw.emit(json!({"run": run, "ev": "reset", "script": script_json(s), "idx": idx, "rep": rep}));
+			let rseed = run_seed.unwrap_or(
+				seed.wrapping_mul(1_000_003).wrapping_add((idx as u64) << 8).wrapping_add(rep as u64),
+			);
+			let mut rng = StdRng::seed_from_u64(rseed);
+			tw.emit(json!({"run": run, "ev": "reset", "script": script_json(s), "idx": idx, "rep": rep,
+				"rseed": rseed.to_string()}));
 			let case = make_case(s, &mut rng);
 			match case {
 				None => {
